@@ -66,8 +66,9 @@ def run_all():
     r = engine.Run('ST', 'thorough', fx)
     recs = [x for x in fx.records.values() if x['file'].endswith('st_init.cpp')]
     engines.r1_field_init(r, recs, {})
+    engines.uninit_local_reads(r, [f for f in fx.functions.values() if f.file.endswith('st_init.cpp')])
     rep = _names(r)
-    expect('R1 field-init', rep, {x['norm'].split('::')[-1] for x in recs})
+    expect('R1 field-init', rep, {x['norm'].split('::')[-1] for x in recs} | {f.norm.split('::')[-1] for f in fx.functions.values() if f.file.endswith('st_init.cpp') and f.kind == 'function' and f.norm.split('::')[-1] != 'use'})
 
     # --- st_handlers: R6 flows + slot dataflow + posted this
     r = engine.Run('ST', 'thorough', fx)
